@@ -227,7 +227,7 @@ fn strat(files_weight: f64) -> impl Strategy<Value = SplCase> {
 }
 
 pub fn run(ctx: &Ctx, stats: &mut Stats) {
-    let n = ctx.tier.pick(8_000, 150_000);
+    let n = ctx.tier.pick(24_000, 300_000);
     let c2 = ctx.clone();
     run_prop(ctx, stats, "random", n, strat(0.25), &move |c: &SplCase| check_in(&c2, c));
 }
